@@ -176,3 +176,25 @@ def worldStep (w : List State) : WOp → List State
 def worldRun (ops : List WOp) : List State := ops.foldl worldStep []
 
 end Vegeta.Model.Prom
+
+/-! ### `Metrics.Register` and a registry -/
+namespace Vegeta.Model.Prom
+
+/-- What a `prometheus.Registry` holds of our collectors: pairs (instance, collector kind), the kinds being
+0 `request_seconds`, 1 `request_bytes_in`, 2 `request_bytes_out`, 3 `request_fail_count`. The collectors of
+different instances of one kind are identically described, so the registry accepts a kind only once. -/
+abbrev Registry := List (Nat × Nat)
+
+/-- the loop of `Metrics.Register`: `for _, c := range collectors { if err := r.Register(c); err != nil { return err } }`
+— on the first rejected collector it returns the error; what was accepted before stays registered. -/
+def registerFrom (i : Nat) : List Nat → Registry → Registry × Bool
+  | [], reg => (reg, true)
+  | c :: cs, reg => if reg.any (fun e => e.2 == c) then (reg, false) else registerFrom i cs (reg ++ [(i, c)])
+
+/-- `pm.Register(r)` for instance `i`: the new registry contents and whether `nil` was returned -/
+def register (i : Nat) (reg : Registry) : Registry × Bool := registerFrom i [0, 1, 2, 3] reg
+
+/-- every kind of collector is present as soon as one is (the state `Register` leaves on a fresh registry) -/
+def Whole (reg : Registry) : Prop := reg = [] ∨ ∀ c, c < 4 → ∃ j, (j, c) ∈ reg
+
+end Vegeta.Model.Prom
